@@ -262,6 +262,44 @@ func init() {
 			t.close(false)
 			time.Sleep(100 * time.Millisecond)
 		}
+		// registration and authentication in one write (one read at the server): the connection is registered by its authentication
+		// although the message in front of it was declined, and a command for its key reaches it
+		if opts.keyFunc != nil {
+			for round := 0; round < 3; round++ {
+				ph := []byte{0x01, 0x36, 0x00, 0x00, 0x77, 0x98}
+				t := l.dial(ph, 0)
+				reg := append(make([]byte, 25+8), []byte("A12345")...)
+				if round == 1 {
+					t.send(append(t.frame(0x0002, nil), append(t.frame(0x0100, reg), t.frame(0x0102, asciiDigits(ph))...)...))
+				} else {
+					t.send(append(t.frame(0x0100, reg), t.frame(0x0102, asciiDigits(ph))...))
+				}
+				t.waitRecv(2, 3*time.Second)
+				for len(t.recvCh) > 0 {
+					<-t.recvCh
+				}
+				resCh := make(chan cmdResult, 1)
+				k := int(kid.Add(1))
+				go func() { resCh <- l.sendActive(t.idx, k, keyOf(ph), consts.P8104QueryTerminalParams, nil, time.Second) }()
+				dl := time.After(1500 * time.Millisecond)
+			answer:
+				for {
+					select {
+					case fr := <-t.recvCh:
+						if dv, _ := decodeView(fr); dv.Ok && dv.ID == 0x8104 {
+							t.send(t.frame(0x0104, []byte{byte(dv.Serial >> 8), byte(dv.Serial), 0}))
+							break answer
+						}
+					case <-dl:
+						break answer
+					}
+				}
+				res := <-resCh
+				l.rec.log(t.idx, "D", "assert", "ok", res.Kind == "resp", "what", "RegisteredByAMessageInTheMiddleOfARead", "kind", res.Kind)
+				t.close(false)
+				l.waitLeft(t.idx, 2*time.Second)
+			}
+		}
 		// every key can be taken by a new connection
 		for i, ph := range phones {
 			t := l.dial(ph, 0)
